@@ -14,6 +14,21 @@ CLAIMED = {
             'trips, general memory safety or search termination.',
             'Trusts clang 14 name/overload resolution and the source tables of throwing std functions and partial name look-ups listed in orv/cg.py.',
             'DESIGN.md 4 C18'),
+    'C08': ('undo-log typestate over stores to backtrackable state (who-may-write table, save-before-write with same key and current value, first-write-wins, overwrite-restore, push/pop pairing)',
+            'Static: every store to a backtrackable location (LRA bounds, DL distances / predecessors / responsible constraints, SAT trail vectors, flaw set and costs) in every '
+            'function of the program obeys the undo-log discipline on every path; pop() restores every undo map by assignment and removes one layer. Decides the structural '
+            'necessary conditions of "undo restores exactly"; equality of all observables on arbitrary histories is not decided.',
+            'Trusts the frozen table of backtrackable fields and their reviewed writers in orv/rules/C08.py.', 'DESIGN.md 4 C08'),
+    'C10': ('IDL/RDL sibling comparison of normalised path sets + decision-table and explanation-walk typestate of the DL propagation code',
+            'Static: the two difference-logic theories agree method by method under the type map; the assertion/negation table of propagate(lit), the overwrite of the '
+            'edge->constraint map, the four explanation walks (start, end, predecessor row, polarity, own literal) and matrix growth have the shape exactness needs. '
+            'Tightness of the incremental all-pairs update is not decided.',
+            'Trusts the type map I<->inf_rational and the two reasoned sibling differences listed in orv/sib_dl.py / orv/rules/C10.py.', 'DESIGN.md 4 C10'),
+    'C12': ('decision-table extraction of the relation builders checked against the algebraically derived table; IDL/RDL sibling comparison of the queries; sign-of-coefficient dataflow in bounds(lin)',
+            'Static, exhaustive over the finite table: all 2 theories x 5 relations x arities 0/1/2 x sign cells return the distance constraint that the algebra of c*x + k ~ 0 dictates '
+            '(from, to, constant sign, strictness), with the normalising division, the difference-form and integrality guards; sibling agreement of bounds/distance/equates/lb/ub; '
+            'bounds(c*x) respects the sign of c. The sign conventions of distance(lin,lin)/equates are not decided (DESIGN 4 C12).',
+            'Trusts the meaning of new_distance(from,to,d) as to - from <= d (checked by C10.R2).', 'DESIGN.md 4 C12'),
 }
 
 NOT_YET = {}
